@@ -6,7 +6,8 @@
 (*   like with the one parameter c, replacement lists of at most MaxBody    *)
 (*   tokens over {a, b, c, "(", ")"} (WithOps = TRUE adds "#" and "##");     *)
 (*   inputs: every sequence of at most MaxIn tokens over the same alphabet  *)
-(*   plus eleven fixed ones with nested and repeated invocations.           *)
+(*   plus seven (MaxIn >= 1: eleven) fixed ones with nested and repeated    *)
+(*   invocations.                                                           *)
 (*   Laws of Exp (Prosser's expand): termination, idempotence, no macro     *)
 (*   invocation left, hide sets only name defined macros, the results       *)
 (*   contain only source spellings, ...                                     *)
@@ -30,11 +31,12 @@ DefsOf(n) == {d \in {[name |-> n, fl |-> fl, params |-> IF fl THEN <<nc>> ELSE <
                         fl \in BOOLEAN, bd \in Bodies} : BodyStatus(d) = "ok"}
 MacroSets == {<<>>} \cup {<<d>> : d \in DefsOf(na) \cup DefsOf(nb)}
                     \cup {<<d1, d2>> : d1 \in DefsOf(na), d2 \in DefsOf(nb)}
-\* every input of at most MaxIn tokens, plus some longer ones with (nested, repeated) invocations
+\* every input of at most MaxIn tokens, plus longer ones with nested and repeated invocations
 Inputs == {Mk(x) : x \in SeqsUpTo(Alpha, MaxIn)}
-          \cup {<<Ta>>, <<Tb>>, <<Ta, Tb>>,
-                <<Ta, Tl, Tb, Tr>>, <<Ta, Tl, Ta, Tr>>, <<Tb, Tl, Tc, Tr>>, <<Ta, Tl, Tr>>, <<Ta, Tl, Tc, Tr, Tl, Tc, Tr>>,
-                <<Ta, Tl, Tb, Tl, Tc, Tr, Tr>>, <<Ta, Tl, Ta, Tl, Tc, Tr, Tr, Tb>>, <<Tb, Ta, Tl, Tb, Tr, Tl, Ta, Tr>>}
+          \cup {<<Ta>>, <<Tb>>, <<Ta, Tb>>, <<Ta, Tl, Tb, Tr>>, <<Ta, Tl, Tc, Tr, Tl, Tc, Tr>>,
+                <<Ta, Tl, Tb, Tl, Tc, Tr, Tr>>, <<Tb, Ta, Tl, Tb, Tr, Tl, Ta, Tr>>}
+          \cup (IF MaxIn >= 1 THEN {<<Ta, Tl, Ta, Tr>>, <<Tb, Tl, Tc, Tr>>, <<Ta, Tl, Tr>>, <<Ta, Tl, Ta, Tl, Tc, Tr, Tr, Tb>>}
+                ELSE {})
 
 \* ---- the line alphabet of the machine part --------------------------------
 Hash == Tok("punct", HASH, FALSE)
